@@ -52,7 +52,9 @@ def m_refcell_borrow(ex, site, a):
 
 @model('<RefMut as DerefMut>::deref_mut', '<RefMut as Deref>::deref', '<Ref as Deref>::deref')
 def m_refmut_deref(ex, site, a):
-    return deref(ex, a[0]).fields[0]
+    v = deref(ex, a[0])
+    if v.ty == 'dashmap::Ref': return v.fields[1]       # the guard of a DashMap entry derefs to the value
+    return v.fields[0]
 
 
 # --------------------------------------------------------------------------- raw pointers
